@@ -11,10 +11,12 @@ func main() {
 		vlib.Group{Name: "dsyev", Gen: genDsyev},
 		vlib.Group{Name: "dsytrd", Gen: genDsytrd},
 		vlib.Group{Name: "dst-scaled", Gen: genDstScaled},
+		vlib.Group{Name: "dst-special", Gen: genDstSpecial},
 		vlib.Group{Name: "dgesvd", Gen: genDgesvd},
 		vlib.Group{Name: "dgebrd", Gen: genDgebrd},
 		vlib.Group{Name: "dbdsqr-minwork", Gen: genDbdsqrMinWork},
 		vlib.Group{Name: "dbdsqr-direct", Gen: genDbdsqrDirect},
+		vlib.Group{Name: "dbdsqr-special", Gen: genDbdsqrSpecial},
 		vlib.Group{Name: "dgehrd", Gen: genDgehrd},
 		vlib.Group{Name: "dhseqr", Gen: genDhseqr},
 		vlib.Group{Name: "dgeev", Gen: genDgeev},
